@@ -715,8 +715,8 @@ func rule158(r *core.Run) {
 				okS := baseRoot(fa.X) != nil || isConstruction(r, ff)
 				r.Check(okS, "R15.8", key(fname(r, ff), "front end field written", r.P.FieldName(fa)), pos(r, in), "written during construction", "a field of GoFakeS3 is written while serving: the front end keeps state that a restart loses")
 			case *ssa.MapUpdate:
-				ms := r.P.SliceOf(x.Map, core.SliceOpts{Depth: -1})
-				if ms.HasPrefix("field:gofakes3.GoFakeS3.") {
+				// the map's identity (where it lives), not what its size or contents derive from
+				if strings.HasPrefix(containerOwner(r, x.Map, 0), "gofakes3.GoFakeS3.") {
 					nStores++
 					r.Violated("R15.8", key(fname(r, ff), "front end map updated"), pos(r, in), "a map held by GoFakeS3 is updated while serving: what it remembers (e.g. an ETag) is gone after a restart and the same object is then answered differently")
 				}
